@@ -327,6 +327,21 @@ func (w *world) run() {
 			b = append([]byte(nil), w.pool[from].Bytes[:47]...)
 		case "len49":
 			b = append(append([]byte(nil), w.pool[from].Bytes...), 0)
+		case "len96":
+			b = append(append([]byte(nil), w.pool[from].Bytes...), w.pool[(from+1)%w.n].Bytes...)
+		case "pair47_49":
+			// alternating lengths that compensate each other in a flattened array
+			if from%2 == 0 {
+				b = append([]byte(nil), w.pool[from].Bytes[:47]...)
+			} else {
+				b = append(append([]byte(nil), w.pool[from].Bytes...), 0)
+			}
+		case "pair0_96":
+			if from%2 == 0 {
+				b = []byte{}
+			} else {
+				b = append(append([]byte(nil), w.pool[from].Bytes...), w.pool[(from+1)%w.n].Bytes...)
+			}
 		case "negated":
 			b = append([]byte(nil), w.pool[from].Bytes...)
 			b[0] ^= 0x20
@@ -336,7 +351,7 @@ func (w *world) run() {
 		w.pool = append(w.pool, thrmodel.Share{Bytes: b, Kind: kind, TrueOf: trueOf})
 		return len(w.pool) - 1
 	}
-	badKinds := []string{"wrongsigner", "othermsg", "notG1", "offcurve", "xlarge", "badheader", "infinity", "len0", "len47", "len49", "negated", "random"}
+	badKinds := []string{"wrongsigner", "othermsg", "notG1", "offcurve", "xlarge", "badheader", "infinity", "len0", "len47", "len49", "negated", "random", "len96", "pair47_49", "pair0_96"}
 	w.env.Pool = nil // set after the pool is complete
 	if c.Bool(1, 3, "onekind") {
 		// swarm: only one kind of bad share in this run (so that e.g. ALL retained shares can be empty)
